@@ -88,6 +88,7 @@ type c19Machine struct {
 	docs  []string
 	last  string
 	depth int
+	merge bool // patches on both replicas, relative to what each shows, with syncs in between
 }
 
 func init() {
@@ -95,11 +96,66 @@ func init() {
 		var p WParams
 		json.Unmarshal(params, &p)
 		p.Type, p.N = "doc", 2
-		return &c19Machine{w: NewWorld(p), docs: c19Docs(p.Alpha)}
+		m := &c19Machine{w: NewWorld(p), docs: c19Docs(p.Alpha)}
+		if strings.Contains(p.Alpha, "merge") {
+			// both replicas share {"arr":[e0,e1,e2]}; then, without syncing, replica 0 patches two elements onto the end and
+			// replica 1 one: the start state of patch chains with merges in between
+			m.merge = true
+			m.w.Step(pt.Action{Op: "patch", R: 0, V: `{"arr":["e0","e1","e2"]}`})
+			m.w.CloseSyncs()
+			// (the single element comes from the replica whose id wins ties: it lands in front of the other's two)
+			m.w.Step(pt.Action{Op: "patch", R: 0, V: `{"arr":["e0","e1","e2","b1","b2"]}`})
+			// replica 1 is a few operations ahead when it appends, so its element is the newer sibling behind e2 and lands
+			// in front of b1 when the two meet
+			m.w.Step(pt.Action{Op: "patch", R: 1, V: `{"arr":["y1","e1","e2"]}`})
+			m.w.Step(pt.Action{Op: "patch", R: 1, V: `{"arr":["y2","e1","e2"]}`})
+			m.w.Step(pt.Action{Op: "patch", R: 1, V: `{"arr":["y2","e1","e2","a1"]}`})
+		}
+		return m
 	}
 }
 
+// mergeTargets: targets relative to what replica r shows now: one or two elements more at the end, one element
+// replaced (first, middle, the last two), one element less (first, last).
+func (m *c19Machine) mergeTargets(ri int) []string {
+	r := m.w.reps[ri]
+	cur, _ := r.doc.GetValue().(map[string]interface{})
+	arr, _ := cur["arr"].([]interface{})
+	n := len(arr)
+	mk := func(a []interface{}) string { return canonJSON(jsonStr(map[string]interface{}{"arr": a})) }
+	tag := func(k int) string { return fmt.Sprintf("p%d_%d_%d", ri, m.depth, k) }
+	var out []string
+	out = append(out, mk(append(append([]interface{}{}, arr...), tag(0))))
+	out = append(out, mk(append(append([]interface{}{}, arr...), tag(0), tag(1))))
+	for _, i := range uniq(0, n/2, n-2, n-1) {
+		if i < 0 || i >= n {
+			continue
+		}
+		c := append([]interface{}{}, arr...)
+		c[i] = tag(2)
+		out = append(out, mk(c))
+	}
+	for _, i := range uniq(0, n-1) {
+		if i < 0 || i >= n {
+			continue
+		}
+		c := append(append([]interface{}{}, arr[:i]...), arr[i+1:]...)
+		out = append(out, mk(c))
+	}
+	return out
+}
+
 func (m *c19Machine) Enabled() []pt.Action {
+	if m.merge {
+		var as []pt.Action
+		for ri := range m.w.reps {
+			for _, t := range m.mergeTargets(ri) {
+				as = append(as, pt.Action{Op: "patch", R: ri, V: t})
+			}
+			as = append(as, pt.Action{Op: "sync", R: ri})
+		}
+		return as
+	}
 	cur := canonJSON(jsonStr(m.w.reps[0].doc.GetValue()))
 	var as []pt.Action
 	for _, d := range m.docs {
@@ -142,11 +198,18 @@ func shapeOf(s string) string { // coarse class of a document for signatures
 }
 
 func (m *c19Machine) Apply(a pt.Action) *pt.Violation {
-	r := m.w.reps[0]
+	r := m.w.reps[a.R]
 	src := canonJSON(jsonStr(r.doc.GetValue()))
-	npend := len(m.w.Pending(0))
+	npend := len(m.w.Pending(a.R))
 	out := m.w.Step(a)
 	m.depth++
+	if a.Op == "sync" {
+		m.last = out.Err
+		if out.Err != "" {
+			return viol("C19:remote-apply-error", "replica %d could not apply the other replica's patch operations: %s %v", a.R, out.Err, m.w.errs)
+		}
+		return nil
+	}
 	m.last = fmt.Sprintf("%s|%s", out.Err, out.Ret)
 	cls := shapeOf(src) + "->" + shapeOf(a.V)
 	if strings.ContainsAny(src+a.V, "/~") {
@@ -163,7 +226,7 @@ func (m *c19Machine) Apply(a pt.Action) *pt.Violation {
 		if got := canonJSON(jsonStr(r.doc.GetValue())); got != before {
 			return viol("C19:refused-patch-changed-document", "PatchByJSON(%s) failed but the document changed from %s to %s", a.V, before, got)
 		}
-		if len(m.w.Pending(0)) != npend {
+		if len(m.w.Pending(a.R)) != npend {
 			return viol("C19:refused-patch-queued-operations", "PatchByJSON(%s) failed but queued operations", a.V)
 		}
 		return nil
@@ -178,7 +241,7 @@ func (m *c19Machine) Apply(a pt.Action) *pt.Violation {
 	if got != canonJSON(a.V) {
 		return viol("C19:patched-value-differs:"+cls, "document %s patched to target %s reads %s", src, a.V, got)
 	}
-	unit := m.w.Pending(0)[npend:]
+	unit := m.w.Pending(a.R)[npend:]
 	if len(unit) > 1 {
 		if unit[0].OpType != model.TypeOfOperation_TRANSACTION {
 			return viol("C19:patch-not-one-unit", "patch %s -> %s emitted %d operations without a transaction header", src, a.V, len(unit))
@@ -192,6 +255,16 @@ func (m *c19Machine) Apply(a pt.Action) *pt.Violation {
 }
 
 func (m *c19Machine) Close() *pt.Violation {
+	if m.merge {
+		m.w.CloseSyncs()
+		if len(m.w.errs) > 0 {
+			return viol("C19:remote-apply-error", "a replica could not apply the other's patch operations: %v", m.w.errs)
+		}
+		if a, b := m.w.reps[0].View(), m.w.reps[1].View(); a != b {
+			return viol("C19:replicas-differ-after-patches", "after every replica received everything the views differ:\n r0 %s\n r1 %s", a, b)
+		}
+		return nil
+	}
 	want := canonJSON(jsonStr(m.w.reps[0].doc.GetValue()))
 	m.w.CloseSyncs()
 	if len(m.w.errs) > 0 {
